@@ -334,10 +334,10 @@ def _hard_cut(z, y_soft, tau, threshold):
     # whereas the rounded sigmoid is exactly 0.5 for small positive z / tau (large temperatures)
     if 0.0 < threshold < 1.0:
         cut = tau * (math.log(threshold) - math.log1p(-threshold))
-        return (z > cut).float()
+        return (z > cut).to(y_soft.dtype)
     # the soft sample lies strictly between 0 and 1 (its rounded value may be exactly 0 or 1): a threshold <= 0 is always
     # exceeded, a threshold >= 1 never
-    return torch.full_like(y_soft, 1.0 if threshold <= 0.0 else 0.0, dtype=torch.float32)
+    return torch.full_like(y_soft, 1.0 if threshold <= 0.0 else 0.0)
 
 def _check_temperature(tau):
     # tau = 0 gives NaN, tau < 0 prefers the least likely gate, NaN propagates: none of them is a temperature
@@ -394,6 +394,6 @@ def hard_walsh(logits, tau=1.0):
     _check_temperature(tau)
     x = torch.sigmoid(logits / _representable_tau(tau, logits))
     # threshold the form itself: sigmoid(logits / tau) rounds to exactly 0.5 for tiny positive logits / tau
-    x = (logits > 0).to(torch.float32) - x.detach() + x
+    x = (logits > 0).to(logits.dtype) - x.detach() + x
     return x
 
